@@ -297,6 +297,9 @@ def explore(run, max_paths):
             status = 'infeasible'
         except PathEnd:
             status = 'pathend'
+        except OutOfReach as o:
+            status = 'out_of_reach'
+            ctx.reach_reason = str(o)
         for i in range(len(prefix), len(ctx.trace)):
             ch, cnt = ctx.trace[i]
             for alt in range(ch + 1, cnt):
@@ -346,6 +349,8 @@ class Result(object):
         self.reason = None
         self.obligations = []       # dicts
         self.paths = 0
+        self.post_prunes = 0
+        self.unreached = []
         self.flags = set()
         self.solver_s = 0.0
         self.wall_s = 0.0
@@ -353,7 +358,8 @@ class Result(object):
 
     def to_json(self):
         return {'contract': self.contract, 'target': self.target, 'props': self.props, 'status': self.status,
-                'reason': self.reason, 'obligations': self.obligations, 'paths': self.paths,
+                'reason': self.reason, 'obligations': self.obligations, 'paths': self.paths, 'post_prunes': self.post_prunes,
+                'unreached_paths': len(self.unreached), 'unreached_reasons': sorted(set(self.unreached))[:8],
                 'flags': sorted(self.flags), 'solver_s': round(self.solver_s, 3), 'wall_s': round(self.wall_s, 3),
                 'source_sha': self.source_sha}
 
@@ -385,7 +391,10 @@ def verify_contract(world, c, timeout_ms=10000, only_case=None):
                 vals = []
                 for n in names:
                     if n in case:
-                        vals.append(from_native(case[n]))
+                        if isinstance(case[n], api.Dom):
+                            vals.append(fresh_of_dom(it, case[n], n))
+                        else:
+                            vals.append(from_native(case[n]))
                     elif n in c.args:
                         vals.append(fresh_of_dom(it, c.args[n], n))
                     else:
@@ -395,13 +404,15 @@ def verify_contract(world, c, timeout_ms=10000, only_case=None):
                     if not it.truth(it.call(c.fns['pre'], vals)):
                         raise Infeasible()
                 if c.is_lemma:
+                    ctx.phase = 'post'
                     ok = it.truth(it.call(c.fns['claim'], vals))
-                    if not ok:
-                        ctx.oblige('lemma', 'claim', z3.BoolVal(False))
+                    ctx.oblige('lemma', 'claim', z3.BoolVal(bool(ok)))
                     return
                 call_vals = []
                 a = fn.node.args
                 for n, v in zip(names, vals):
+                    if v is api.OMITTED:
+                        continue
                     if a.vararg is not None and n == a.vararg.arg:
                         if isinstance(v, (tuple, list)):
                             call_vals.extend(v)
@@ -415,6 +426,7 @@ def verify_contract(world, c, timeout_ms=10000, only_case=None):
                 except PyRaise as pr:
                     out = ('raise', pr)
                 world.current = None
+                ctx.phase = 'post'
                 if 'spec' in c.fns:
                     try:
                         sv = it.call(c.fns['spec'], vals)
@@ -430,7 +442,11 @@ def verify_contract(world, c, timeout_ms=10000, only_case=None):
 
             for ctx, status in explore(run, c.max_paths):
                 res.paths += 1
+                if status == 'out_of_reach':
+                    res.unreached.append(ctx.reach_reason)
+                    continue
                 res.flags |= ctx.flags
+                res.post_prunes += ctx.post_prunes
                 for ob in ctx.obligations:
                     goal = z3.simplify(ob.goal) if not isinstance(ob.goal, bool) else z3.BoolVal(ob.goal)
                     if z3.is_true(goal):
@@ -465,6 +481,12 @@ def verify_contract(world, c, timeout_ms=10000, only_case=None):
                         rec['result'] = 'undecided'
                         rec['reason'] = str(info)
                     res.obligations.append(rec)
+        if res.unreached and res.paths == len(res.unreached):
+            res.status = 'out_of_reach'
+            res.reason = '; '.join(sorted(set(res.unreached))[:3])
+        elif res.unreached:
+            res.status = 'partial'
+            res.reason = '%d of %d paths out of reach: %s' % (len(res.unreached), res.paths, '; '.join(sorted(set(res.unreached))[:3]))
     except OutOfReach as o:
         res.status = 'out_of_reach'
         res.reason = str(o)
